@@ -83,11 +83,12 @@ Proof. vm_compute. repeat split; reflexivity. Qed.
     EVERY outstanding entry of the active account whose cutoff [tip] has reached — wherever it
     stands among the other pending entries — and no output of the account stays reserved for it
     ([due tip t]: the entry carries a cutoff e with e <= tip; [cancelled t]: the same entry with
-    its type turned into the cancelled one). *)
+    its type turned into the cancelled one; [expirable t]: outstanding — unconfirmed sent, received
+    or reverted — and not a reverted payment, which is not pending any more: C18). *)
 Theorem C17_refresh_cancels_every_due_entry : forall ops tip t,
   forallb std_op ops = true ->
   let w := run empty_wallet ops in
-  In t (w_log w) -> t_parent t = w_active w -> outstanding t = true -> due tip t = true ->
+  In t (w_log w) -> t_parent t = w_active w -> expirable t = true -> due tip t = true ->
   get_tx (w_log (expire w tip)) (t_parent t) (t_id t) = Some (cancelled t)
   /\ forall o, In o (w_outs (expire w tip)) -> r_root o = w_active w -> r_tx o = Some (t_id t) ->
                r_status o <> Locked.
@@ -100,7 +101,7 @@ Theorem C17_refresh_cancels_nothing_else : forall ops tip t,
   forallb std_op ops = true ->
   let w := run empty_wallet ops in
   In t (w_log w) ->
-  (t_parent t <> w_active w \/ outstanding t = false \/ due tip t = false) ->
+  (t_parent t <> w_active w \/ expirable t = false \/ due tip t = false) ->
   get_tx (w_log (expire w tip)) (t_parent t) (t_id t) = Some t.
 Proof. exact expire_exact_reachable. Qed.
 Print Assumptions C17_refresh_cancels_nothing_else.
